@@ -2,7 +2,16 @@
 replay path by evaluation of the integer skeleton, slot-0 reporting, padding range, size switch.
 
 Verdict policy of this file: a violation is reported only on positive evidence (a concrete counterexample of an
-evaluation, a row of a decision table, a closed-world absence).  A shape that is not recognised is `Undecidable`."""
+evaluation, a row of a decision table, a closed-world absence).  A shape that is not recognised is `Undecidable`.
+
+Closed world: "this store / this access does not happen" is concluded from an evaluation only if unmodelled_tree_use() finds
+nothing in the text of the function that could reach the tree behind the evaluation's back (a call that receives a node, a
+field, a pointer into the tree or the object and is not executed or modelled; a tuple of references, a structured binding,
+a lambda that reaches into the tree).
+
+Spellings the rules do not read are first written out as the plain statements they stand for (lower_novel_forms(): calls of
+local lambdas that stand as statements, std::tie packs, std::exchange, switch); a pointer that walks the tree
+(game = base + (game - base) / 2) is a position variable like an index; a local plain struct can carry the challenger."""
 from engine import ir, dtable, match
 from engine.ir import kids, strip_casts, const_int, ref_of
 
@@ -19,9 +28,32 @@ NULLS = ("NullPtr", "CXXNullPtrLiteralExpr", "GNUNullExpr")
 _REF_INITS = {}     # decl id of a local reference (auto& node = losers_[pos]) -> its initialiser, per function run
 _PTR_INITS = {}     # decl id of a never-reassigned local pointer (Loser* node = &losers_[pos]) -> the pointee expression
 _BASE_PTRS = set()  # decl ids of never-reassigned local pointers to the first node (Loser* base = losers_.data())
+_WALK_PTRS = set()  # decl ids of local pointers to a node that ARE reassigned (Loser* game = base + i; ...; game = base + (game - base) / 2):
+                    # such a pointer names the current node the way an index local does
 
+
+_RECORDS = {}       # local struct of the function under analysis whose fields are plain values (struct Travelling { bool sup; Source source;
+                    # ValueType key; }): qualified name / printed type -> field names in declaration order.  An object of such a type can
+                    # carry the travelling player the way a local Loser object does.
 
 _ZERO = {"k": "IntegerLiteral", "val": 0, "id": -1, "ty": "int"}
+
+
+def _bare_type(t):
+    """a type without const / reference decoration"""
+    t = (t or "").strip()
+    while True:
+        t0 = t
+        if t.startswith("const "):
+            t = t[6:].strip()
+        if t.endswith("&"):
+            t = t.rstrip("&").strip()
+        if t.endswith(" const"):
+            t = t[:-6].strip()
+        if t.endswith("*const"):
+            t = t[:-5].strip()
+        if t == t0:
+            return t
 
 
 def tree_base(e):
@@ -47,6 +79,10 @@ def node_index(n):
         return p[1]
     if ref_of(n) is not None and ref_of(n) in _BASE_PTRS:
         return _ZERO                               # base->f
+    if ref_of(n) is not None and ref_of(n) in _WALK_PTRS:
+        return strip_casts(n)                      # game->f: the walking pointer itself names the node
+    if match.deref_of(n) is not None and ref_of(match.deref_of(n)) in _WALK_PTRS:
+        return strip_casts(match.deref_of(n))      # (*game).f
     if match.deref_of(n) is not None and tree_base(match.deref_of(n)) and not (strip_casts(match.deref_of(n))["k"] == "UnaryOperator"):
         return _ZERO                               # (*base).f
     d = ref_of(n)
@@ -71,6 +107,12 @@ def bind_reference_locals(fn):
     _REF_INITS.clear()
     _PTR_INITS.clear()
     _BASE_PTRS.clear()
+    _WALK_PTRS.clear()
+    _RECORDS.clear()
+    for r in (fn.tu.records if fn.tu is not None else ()):
+        if r["qname"].startswith(fn.qname + "::") and not r.get("bases") and not r.get("methods") and r.get("fields") and \
+                not any((f.get("ty") or "").rstrip().endswith("&") or "Loser" in (f.get("ty") or "") for f in r["fields"]):
+            _RECORDS[r["qname"]] = _RECORDS[r.get("full") or r["qname"]] = [f["name"] for f in r["fields"]]
     written = set()
     for x in fn.nodes():
         if x["k"] in ("BinaryOperator", "CompoundAssignOperator", "CXXOperatorCallExpr"):
@@ -90,6 +132,9 @@ def bind_reference_locals(fn):
                     _BASE_PTRS.add(x["did"])
                 elif i0 is not None and i0["k"] == "UnaryOperator" and i0.get("op") == "&":
                     _PTR_INITS[x["did"]] = kids(i0)[0]
+            elif x["did"] in written and _bare_type((x.get("ty") or "")).endswith("*") and \
+                    _bare_type(_bare_type(x.get("ty") or "")[:-1]).endswith("::Loser"):
+                _WALK_PTRS.add(x["did"])
 
 
 def node_field(n):
@@ -124,6 +169,22 @@ def is_loser_object(e):
     return e is not None and (e.get("ty") or "").replace("const ", "").rstrip(" &").endswith("::Loser")
 
 
+def is_record_member(e):
+    """a field of an object of a local plain struct of this function (t.source)"""
+    e = strip_casts(e)
+    return e is not None and e["k"] == "MemberExpr" and e.get("owner") in _RECORDS and bool(kids(e))
+
+
+def is_record_object(e):
+    e = strip_casts(e)
+    return e is not None and _bare_type(e.get("ty")) in _RECORDS
+
+
+def member_names(e, fields):
+    """names of the fields of the object that the member expression e belongs to"""
+    return _RECORDS.get(strip_casts(e).get("owner")) or fields
+
+
 def local_object(b, depth=0):
     """declaration id of the local Loser object that b designates (the object itself, a reference local bound to it, *p for a
     never-reassigned pointer to it); None if b is a node of the tree or anything else"""
@@ -144,7 +205,7 @@ def local_object(b, depth=0):
         return local_object(_REF_INITS[d], depth + 1)
     if d in _PTR_INITS:
         return local_object(_PTR_INITS[d], depth + 1)          # p->f
-    return d if is_loser_object(b) else None
+    return d if is_loser_object(b) or (is_record_object(b) and b["k"] == "DeclRefExpr" and b["ref"].get("kind") in ("local", "param")) else None
 
 
 def local_place(e, depth=0):
@@ -153,13 +214,15 @@ def local_place(e, depth=0):
     e = strip_casts(e)
     if e is None or depth > 6:
         return None
+    if e["k"] == "DeclRefExpr" and e["ref"].get("kind") == "binding":
+        return None                                   # a structured binding: the object it names is not known here
     d = ref_of(e)
     if d is not None:
         if d in _REF_INITS and node_field(e) is None and node_index(e) is None:
             t = local_place(_REF_INITS[d], depth + 1)      # Source& s = source;  const bool& s = cand.sup;
             return t if t is not None else d
         return d
-    if is_loser_member(e) and kids(e):
+    if (is_loser_member(e) or is_record_member(e)) and kids(e):
         o = local_object(kids(e)[0])
         if o is not None:
             return (o, e["member"])
@@ -188,11 +251,29 @@ def field_values(e, fields, owner):
     if e is None:
         return None
     if e["k"] == "InitListExpr":
-        if len(kids(e)) != len(fields) or any(x is None for x in kids(e)):
+        if len(kids(e)) != len(fields) or any(x is None for x in kids(e)) or is_record_object(e):
             return None
         return {f["name"]: x for f, x in zip(fields, kids(e))}
     if is_loser_object(e) and (node_index(e) is not None or local_object(e) is not None):
         return {f["name"]: member_expr(e, f, owner) for f in fields}
+    return None
+
+
+def record_values(e):
+    """a whole object of a local plain struct taken apart: field name -> expression, for Travelling{a, b, c} (declaration order)
+    and a local object of that type; None if e is something else"""
+    e = match.strip_conv(strip_move(e))
+    while e is not None and e["k"] in ("MaterializeTemporaryExpr", "ExprWithCleanups", "CXXBindTemporaryExpr", "ParenExpr") and kids(e):
+        e = match.strip_conv(strip_move(kids(e)[0]))
+    names = _RECORDS.get(_bare_type(e.get("ty"))) if e is not None else None
+    if names is None:
+        return None
+    if e["k"] == "InitListExpr":
+        if len(kids(e)) != len(names) or any(x is None for x in kids(e)):
+            return None
+        return dict(zip(names, kids(e)))
+    if local_object(e) is not None:
+        return {f: member_expr(e, {"name": f}, _bare_type(e.get("ty"))) for f in names}
     return None
 
 
@@ -361,6 +442,234 @@ def field_escapes(fn):
 
 
 # ----------------------------------------------------------------------------
+# closed world: is every operation of a function that can reach the tree one the evaluation models?
+# ----------------------------------------------------------------------------
+# The evaluation (REPLAY-PATH, PADDING) observes accesses to nodes as the skeleton executes them.  "This store / this access
+# does not happen" may be concluded from it only if nothing in the function can touch the tree behind the evaluation's back:
+# a call that receives a node, a field, a pointer / reference into the tree or the object itself and is neither executed by
+# the skeleton nor one of the few operations modelled here (std::tie / tuple assignment, a lambda, memcpy, an unknown
+# helper, a member function of the vector other than the accessors, ...), or a local of a type that is not a value of the
+# player and is initialised from the tree (a tuple of references, an iterator object, a structured binding).  The scan is
+# static (the whole text of the function, whatever the evaluation executes for the sizes it tries).
+
+_CASTS = ("ImplicitCastExpr", "CStyleCastExpr", "CXXStaticCastExpr", "CXXFunctionalCastExpr", "CXXReinterpretCastExpr", "CXXConstCastExpr",
+          "ParenExpr", "MaterializeTemporaryExpr", "ExprWithCleanups", "CXXBindTemporaryExpr", "ConstantExpr")
+_PLAIN = ("bool", "char", "signed char", "unsigned char", "short", "unsigned short", "int", "unsigned int", "unsigned", "long", "unsigned long",
+          "long long", "unsigned long long", "size_t", "std::size_t", "float", "double")
+_PASS_THROUGH = ("move", "forward", "min", "max", "unused")
+_COMPARE = ("==", "!=", "<", ">", "<=", ">=", "<=>")
+
+
+def static_inlinable(fn, e):
+    """engine/skel.py inline() executes the body of this call (the static twin of inlinable())"""
+    if fn.tu is None or e["k"] == "CXXOperatorCallExpr" or "callee" not in e:
+        return None
+    callee = fn.tu.by_did.get(e["callee"].get("did"))
+    if callee is None or callee.body is None or callee.did == fn.did or callee.kind in ("ctor", "dtor", "lambda"):
+        return None
+    args = [a for a in kids(e) if a is not None and a["k"] != "DefaultArg"]
+    if e.get("member_call"):
+        if not args or strip_casts(args[0])["k"] != "This":
+            return None
+        args = args[1:]
+    return callee if len(args) == len(callee.params) else None
+
+
+def unmodelled_tree_use(fn, extra=(), _depth=0, _seen=None):
+    """None if every operation of fn (and of the project functions the skeleton executes for it) that can reach the tree
+    is one the evaluation models; otherwise '<file:line>: <what>' for the first one that is not.  `extra`: names of further
+    free functions the caller's evaluation models (std::fill / std::fill_n in the constructor)."""
+    _seen = set() if _seen is None else _seen
+    if fn.did in _seen or _depth > 4:
+        return None
+    _seen.add(fn.did)
+    try:
+        values = {_bare_type(f.get("ty")) for f in loser_fields(fn)}
+    except ir.AnalysisBroken:
+        values = set()
+
+    def value_type(t):
+        b = _bare_type(t)
+        return b in values or b in _PLAIN or b.endswith("::Loser") or b in _RECORDS
+
+    handles = {}         # local / parameter -> 'ref' | 'ptr' | 'object': it gives access to storage of the tree
+
+    def conveys(e):
+        """e designates storage of the tree (a node, a field of one, the vector) or is a pointer into it"""
+        if e is None:
+            return False
+        k = e["k"]
+        if k in _CASTS:
+            return bool(kids(e)) and conveys(kids(e)[0])
+        if match.this_field(e) == TREE:
+            return True
+        if k == "DeclRefExpr":
+            return e["ref"]["id"] in handles
+        if k == "MemberExpr":
+            return bool(kids(e)) and conveys(kids(e)[0])
+        ip = match.index_parts(e)
+        if ip:
+            return conveys(ip[0])
+        if k == "UnaryOperator":
+            return e.get("op") in ("&", "*", "++", "--") and conveys(kids(e)[0])
+        if k in ("BinaryOperator", "CompoundAssignOperator"):
+            op = e.get("op")
+            if op == ",":
+                return conveys(kids(e)[1])
+            if op.endswith("=") and op not in _COMPARE:
+                return conveys(kids(e)[0])
+            if _bare_type(e.get("ty")).endswith("*"):
+                return conveys(kids(e)[0]) or conveys(kids(e)[1])       # base + i
+            return False
+        if k == "ConditionalOperator":
+            return conveys(kids(e)[1]) or conveys(kids(e)[2])
+        if k == "InitListExpr":
+            return False if value_type(e.get("ty")) else any(conveys(c) for c in kids(e))
+        if "callee" in e:
+            if tree_accessor(e, 1) is not None:
+                return e["callee"]["name"] != "size"
+            if value_type(e.get("ty")) and not (e.get("lv") or (e.get("ty") or "").rstrip().endswith("&")):
+                return False                       # a value of the player (a copy of a node, a key, an index)
+            return any(conveys(a) for a in kids(e))
+        return False
+
+    def handle_kind(v):
+        ty = v.get("ty") or ""
+        if v["k"] != "VarDecl" or not v.get("name"):
+            return "object"                  # auto& [a, b] = losers_[0]: which field a binding names is not in the tree the rules see
+        if v.get("isref") or ty.rstrip().endswith("&"):
+            return "ref"
+        b = _bare_type(ty)
+        if b.endswith("*"):
+            return "ptr" if _bare_type(b[:-1]).endswith("::Loser") else None     # keyp is a value of the player
+        return None if value_type(ty) else "object"
+
+    if _depth:
+        for p_ in fn.params:
+            ty = (p_.get("ty") or "").rstrip()
+            if "Loser" in ty and (ty.endswith("&") or ty.endswith("*")):
+                handles[p_["did"]] = "ref" if ty.endswith("&") else "ptr"
+    changed = True
+    while changed:
+        changed = False
+        for x in fn.nodes():
+            if x["k"] in ("VarDecl", "DecompositionDecl", "BindingDecl") and x.get("did") is not None and x["did"] not in handles:
+                init = kids(x)[0] if kids(x) else None
+                if init is not None and conveys(init) and handle_kind(x):
+                    handles[x["did"]] = handle_kind(x)
+                    changed = True
+            b = match.binop(x, ("=",)) if x["k"] == "BinaryOperator" else None
+            if b and ref_of(b[1]) is not None and ref_of(b[1]) not in handles and conveys(b[2]) and \
+                    _bare_type(strip_casts(b[1]).get("ty")).endswith("*"):
+                handles[ref_of(b[1])] = "ptr"
+                changed = True
+    for x in fn.nodes():
+        if x["k"] in ("VarDecl", "DecompositionDecl", "BindingDecl") and handles.get(x.get("did")) == "object":
+            return "%s: local %s of type %s is initialised from the tree: accesses through it are not modelled" \
+                % (fn.nloc(x), x.get("name"), x.get("ty"))
+
+    def bare_this(e, under_member=False):
+        if e is None:
+            return False
+        if e["k"] == "This":
+            return not under_member
+        if e["k"] in _CASTS:
+            return bool(kids(e)) and bare_this(kids(e)[0], under_member)
+        if e["k"] == "MemberExpr":
+            return any(bare_this(c, True) for c in kids(e))
+        if "callee" in e:
+            return False                           # looked at on its own
+        return any(bare_this(c) for c in kids(e))
+
+    def lambda_of(f):
+        d = ref_of(f)
+        if d is None:
+            return None
+        for x in fn.nodes():
+            if x["k"] == "VarDecl" and x.get("did") == d and kids(x):
+                init = kids(x)[0]
+                while init is not None and init["k"] != "LambdaExpr" and len(kids(init)) == 1:
+                    init = kids(init)[0]
+                if init is not None and init["k"] == "LambdaExpr":
+                    return init
+        return None
+
+    def modelled(c, args):
+        name, k = c["callee"]["name"], c["k"]
+        member = bool(c.get("member_call"))
+        ip = match.index_parts(c)
+        if ip:
+            return not conveys(ip[1])                                     # losers_[i], p[i]
+        if tree_accessor(c, 1) is not None:
+            return True
+        if name == "swap" and not member and len(args) == 2 and k == "CallExpr":
+            return True
+        fc = match.functor_call(c)
+        if fc and match.this_field(fc[0]) == "cmp_":
+            return True                                                   # the comparator reads its operands
+        if name in _PASS_THROUGH and not member and k == "CallExpr":
+            return True
+        if name in extra and not member and k == "CallExpr":
+            return True
+        if k in ("CXXConstructExpr", "CXXTemporaryObjectExpr"):
+            return len(args) == 1 and _bare_type(args[0].get("ty")) == _bare_type(c.get("ty")) and value_type(c.get("ty"))   # a copy of a player / key
+        if fc and k == "CXXOperatorCallExpr":
+            lam = lambda_of(fc[0])
+            lf = fn.tu.by_did.get(lam.get("fn")) if lam is not None and fn.tu is not None else None
+            if lf is None or lf.body is None or len(lf.params) != len(fc[1]):
+                return False
+            for a, p_ in zip(fc[1], lf.params):
+                ty = (p_.get("ty") or "").strip()
+                if conveys(a) and (ty.endswith("*") or (ty.endswith("&") and not ty.startswith("const "))):
+                    return False                                          # the lambda may store through this parameter
+            return not bare_this(fc[0])                                    # reads only; what its body reaches by itself is scanned at the LambdaExpr
+        if k == "CXXOperatorCallExpr":
+            op = c.get("op")
+            if op == "=" and len(args) == 2:
+                lhs = strip_casts(args[0])
+                if (is_loser_member(lhs) and not match.this_field(lhs)) or is_loser_object(lhs):
+                    return True                                           # the evaluation takes these apart
+                return lhs["k"] == "DeclRefExpr" and lhs["ref"]["id"] not in handles and value_type(lhs.get("ty"))
+            if op in _COMPARE or op in ("+", "-", "*", "->"):
+                return True                                               # reads / iterator arithmetic
+            if op in ("++", "--", "+=", "-=") and args:
+                return ref_of(args[0]) is not None and handles.get(ref_of(args[0])) != "ref"      # a local iterator steps
+            return False
+        callee = static_inlinable(fn, c)
+        if callee is not None:
+            return True                                                   # executed by the skeleton; its body is scanned below
+        return False
+
+    for c in fn.nodes():
+        if c["k"] in ("CompoundAssignOperator", "UnaryOperator") and (c["k"] == "CompoundAssignOperator" or c.get("op") in ("++", "--")):
+            t = strip_casts(kids(c)[0]) if kids(c) else None
+            if t is not None and is_loser_member(t) and not match.this_field(t) and conveys(t):
+                return "%s: a node field is updated in place: %s" % (fn.nloc(c), dtable.describe(c)[:80])
+        if c["k"] == "LambdaExpr":
+            lf = fn.tu.by_did.get(c.get("fn")) if fn.tu is not None else None
+            if lf is None or lf.body is None:
+                return "%s: body of a lambda is not known" % fn.nloc(c)
+            for y in lf.nodes():
+                if match.this_field(y) == TREE or (y["k"] == "DeclRefExpr" and y["ref"]["id"] in handles):
+                    return "%s: a lambda reaches into the tree (its body is not executed by the evaluation)" % fn.nloc(c)
+        if c["k"] in ("CXXNewExpr", "CXXDeleteExpr", "CXXForRangeStmt") and any(conveys(y) for y in ir.walk(c) if y is not c):
+            return "%s: %s over the tree" % (fn.nloc(c), c["k"])
+        if "callee" not in c:
+            continue
+        args = [a for a in kids(c) if a is not None and a["k"] != "DefaultArg"]
+        if not any(conveys(a) or bare_this(a) for a in args):
+            continue
+        if not modelled(c, args):
+            return "%s: call not understood: %s" % (fn.nloc(c), dtable.describe(c)[:80])
+        callee = static_inlinable(fn, c)
+        if callee is not None:
+            r = unmodelled_tree_use(callee, extra, _depth + 1, _seen)
+            if r:
+                return r
+    return None
+
+
+# ----------------------------------------------------------------------------
 # REPLAY-PATH
 # ----------------------------------------------------------------------------
 
@@ -368,6 +677,557 @@ class _PathWrong(Exception):
     def __init__(self, sig, msg, node):
         Exception.__init__(self, msg)
         self.sig, self.msg, self.node = sig, msg, node
+
+
+# ----------------------------------------------------------------------------
+# a switch in the loop body, written as the if-chain it stands for
+# ----------------------------------------------------------------------------
+
+_fresh = [1 << 40]
+
+
+def _fresh_id():
+    _fresh[0] += 1
+    return _fresh[0]
+
+
+def _own_break(s):
+    """s holds a `break` that leaves the enclosing switch (not one of a loop / switch nested in s)"""
+    if s is None:
+        return False
+    if s["k"] == "BreakStmt":
+        return True
+    if s["k"] in ("WhileStmt", "ForStmt", "DoStmt", "CXXForRangeStmt", "SwitchStmt", "LambdaExpr"):
+        return False
+    return any(_own_break(c) for c in kids(s))
+
+
+def _as_list(s):
+    if s is None:
+        return []
+    return list(kids(s)) if s["k"] == "CompoundStmt" else [s]
+
+
+def _block(stmts, like):
+    return {"k": "CompoundStmt", "id": _fresh_id(), "l": like.get("l"), "ch": stmts}
+
+
+def _switch_arm(fn, stmts, cont):
+    """the statements of a switch from one label on, as straight code: `break` and the end of the switch continue with
+    `cont` (the statements that follow the switch), a statement with a `break` inside takes the rest of the arm into its
+    branches; `continue` / `return` end the arm.  Labels further down are fallen through."""
+    out = []
+    stmts = list(stmts)
+    while stmts:
+        s = stmts.pop(0)
+        if s is None or s["k"] == "NullStmt":
+            continue
+        k = s["k"]
+        if k == "BreakStmt":
+            return out + cont
+        if k in ("ContinueStmt", "ReturnStmt"):
+            return out + [s]
+        if k in ("AttributedStmt", "CaseStmt", "DefaultStmt"):
+            stmts = [c for c in kids(s) if c is not None and "k" in c and not c["k"].endswith("Attr")] + stmts      # [[fallthrough]]; a label
+            continue
+        if _own_break(s):
+            if k == "IfStmt" and "init" not in s and "condvar" not in s:
+                c, t, e = (list(kids(s)) + [None, None])[:3]
+                new = dict(s)
+                new["id"] = _fresh_id()
+                new["ch"] = [c, _block(_switch_arm(fn, _as_list(t) + stmts, cont), s), _block(_switch_arm(fn, _as_list(e) + stmts, cont), s)]
+                return out + [new]
+            if k == "CompoundStmt":
+                stmts = list(kids(s)) + stmts
+                continue
+            raise dtable.Undecidable("%s: break of a switch inside %s" % (fn.nloc(s), k))
+        out.append(s)
+    return out + cont
+
+
+def lower_switches(fn, stmts):
+    """the statement list with every switch replaced by the chain  if (sel == c1) {...} else if (sel == c2) {...} else
+    {default}  that it stands for (the statements after the switch become the continuation of every arm that leaves it);
+    engine/dtable.py does not interpret a switch.  The selector must be free of side effects (it is evaluated per test)."""
+    out = []
+    stmts = list(stmts)
+    for i, s in enumerate(stmts):
+        if s is None:
+            continue
+        if s["k"] == "SwitchStmt" and len(kids(s)) == 2 and "init" not in s and "condvar" not in s:
+            sel, body = kids(s)
+            for x in ir.walk(sel):
+                if x["k"] in ("CompoundAssignOperator", "LambdaExpr") or (x["k"] == "BinaryOperator" and x.get("op") == "=") or \
+                        (x["k"] == "UnaryOperator" and x.get("op") in ("++", "--")) or \
+                        ("callee" in x and not (match.index_parts(x) or match.functor_call(x) or match.deref_of(x))):
+                    raise dtable.Undecidable("%s: switch on an expression with side effects" % fn.nloc(s))
+            cont = lower_switches(fn, stmts[i + 1:])
+            flat = []         # ('case', value) | ('default', None) | ('stmt', node), in the order of the text
+
+            def add(x):
+                if x is None:
+                    return
+                if x["k"] == "CaseStmt":
+                    if x.get("val") is None:
+                        raise dtable.Undecidable("%s: case label not understood" % fn.nloc(x))
+                    flat.append(("case", x["val"]))
+                    for c in kids(x):
+                        add(c)
+                elif x["k"] == "DefaultStmt":
+                    flat.append(("default", None))
+                    for c in kids(x):
+                        add(c)
+                else:
+                    flat.append(("stmt", x))
+            for x in _as_list(body):
+                add(x)
+            if flat and flat[0][0] == "stmt":
+                flat = flat[next((j for j, f in enumerate(flat) if f[0] != "stmt"), len(flat)):]      # not reachable
+            chain = None
+            dflt = cont
+            tests = []
+            for j, f in enumerate(flat):
+                if f[0] == "stmt":
+                    continue
+                arm = lower_switches(fn, _switch_arm(fn, [g[1] for g in flat[j + 1:] if g[0] == "stmt"], cont))
+                if f[0] == "default":
+                    dflt = arm
+                else:
+                    tests.append((f[1], arm))
+            chain = _block(dflt, s)
+            for val, arm in reversed(tests):
+                lit = {"k": "IntegerLiteral", "id": _fresh_id(), "l": s.get("l"), "ty": sel.get("ty"), "val": int(val)}
+                cond = {"k": "BinaryOperator", "id": _fresh_id(), "l": s.get("l"), "op": "==", "ty": "bool", "ch": [sel, lit], "switch_test": True}
+                if s.get("f"):
+                    cond["f"] = s["f"]
+                chain = {"k": "IfStmt", "id": _fresh_id(), "l": s.get("l"), "ch": [cond, _block(arm, s), chain]}
+            return out + [chain]
+        if s["k"] in ("IfStmt", "CompoundStmt", "WhileStmt", "ForStmt", "DoStmt") and any(x["k"] == "SwitchStmt" for x in ir.walk(s)):
+            new = dict(s)
+            new["id"] = _fresh_id()
+            if s["k"] == "CompoundStmt":
+                new["ch"] = lower_switches(fn, kids(s))
+            elif s["k"] != "IfStmt":
+                at = {"WhileStmt": 1, "ForStmt": 3, "DoStmt": 0}[s["k"]]          # the loop's body; a switch never sits in its head
+                new["ch"] = [(_block(lower_switches(fn, _as_list(c)), s) if i_ == at and c is not None else c) for i_, c in enumerate(kids(s))]
+            else:
+                c, t, e = (list(kids(s)) + [None, None])[:3]
+                new["ch"] = [c, _block(lower_switches(fn, _as_list(t)), s) if t is not None else None,
+                             _block(lower_switches(fn, _as_list(e)), s) if e is not None else None]
+            s = new
+        out.append(s)
+    return out
+
+
+# ----------------------------------------------------------------------------
+# std::tie packs: a tuple of references is the list of objects it names
+# ----------------------------------------------------------------------------
+
+def _clone(n):
+    """deep copy of an expression with fresh node ids"""
+    if n is None:
+        return None
+    out = dict(n)
+    out["id"] = _fresh_id()
+    if "ch" in n:
+        out["ch"] = [_clone(c) for c in n["ch"]]
+    return out
+
+
+def _through_temporaries(e):
+    e = strip_casts(e)
+    while e is not None and e["k"] in ("MaterializeTemporaryExpr", "ExprWithCleanups", "CXXBindTemporaryExpr", "ParenExpr") and kids(e):
+        e = strip_casts(kids(e)[0])
+    return e
+
+
+def _map_statements(s, f, drop=()):
+    """a copy of the statement s in which every expression statement x is replaced by f(x) and the declarations of the
+    locals in `drop` are removed; conditions, initialisers and other operands are left alone"""
+    if s is None:
+        return None
+    k = s["k"]
+    if k == "DeclStmt":
+        keep = [v for v in kids(s) if not (v["k"] == "VarDecl" and v.get("did") in drop)]
+        if len(keep) == len(kids(s)):
+            return s
+        if not keep:
+            return {"k": "NullStmt", "id": _fresh_id(), "l": s.get("l")}
+        new = dict(s)
+        new["ch"] = keep
+        return new
+    if k in ("CompoundStmt", "IfStmt", "WhileStmt", "ForStmt", "DoStmt", "SwitchStmt", "CaseStmt", "DefaultStmt", "AttributedStmt", "LabelStmt"):
+        new = dict(s)
+        ch = []
+        for i, c in enumerate(kids(s)):
+            is_stmt = k in ("CompoundStmt", "CaseStmt", "DefaultStmt", "AttributedStmt", "LabelStmt") or \
+                (k == "IfStmt" and i >= 1) or (k == "WhileStmt" and i == 1) or (k == "DoStmt" and i == 0) or \
+                (k == "ForStmt" and i in (0, 3)) or (k == "SwitchStmt" and i == 1)
+            ch.append(_map_statements(c, f, drop) if is_stmt else c)
+        new["ch"] = ch
+        return new
+    if k in ("NullStmt", "BreakStmt", "ContinueStmt", "ReturnStmt", "GotoStmt", "CXXTryStmt", "CXXForRangeStmt"):
+        return s
+    return f(s)
+
+
+def _pure_designator(m):
+    """the expression names an object without doing anything: no assignment, no call other than subscripts and the accessors
+    of the tree"""
+    for x in ir.walk(m):
+        if x["k"] in ("CompoundAssignOperator", "LambdaExpr") or (x["k"] == "BinaryOperator" and (x.get("op") or "").endswith("=") and
+                                                                 x.get("op") not in ("==", "!=", "<=", ">=")):
+            return False
+        if x["k"] == "UnaryOperator" and x.get("op") in ("++", "--"):
+            return False
+        if "callee" in x and not (match.index_parts(x) or tree_accessor(x, 1) is not None):
+            return False
+    return True
+
+
+def _written_locals(root):
+    out = set()
+    for x in ir.walk(root):
+        b = match.binop(x) if x["k"] in ("BinaryOperator", "CompoundAssignOperator", "CXXOperatorCallExpr") else None
+        if b and b[0].endswith("=") and b[0] not in ("==", "!=", "<=", ">=") and ref_of(b[1]) is not None:
+            out.add(ref_of(b[1]))
+        u = match.unop(x, ("++", "--")) if x["k"] in ("UnaryOperator", "CXXOperatorCallExpr") else None
+        if u and ref_of(u[1]) is not None:
+            out.add(ref_of(u[1]))
+    return out
+
+
+def inline_local_lambdas(fn):
+    """`auto play = [&](Loser& n) { ... };  play(losers_[pos]);`: a call of a local lambda that stands as a statement is
+    replaced by the lambda's body (reference parameters name the argument, value parameters become locals, the body's own
+    locals get fresh identities).  Captures must be by reference (or `this`): the body then sees the caller's locals as
+    they are at the call, which is what the pasted text does.  The lambda's body must be straight code without `return`.
+    A lambda all of whose uses are such calls disappears; one that is also used otherwise (as a condition: see
+    lambda_condition) keeps its declaration.  Nothing is touched if a condition is not met."""
+    body = fn.body
+    if body is None or fn.tu is None or not any(x["k"] == "LambdaExpr" for x in ir.walk(body)):
+        return False
+    lambdas = {}
+    for x in ir.walk(body):
+        if x["k"] != "VarDecl" or not kids(x) or kids(x)[0] is None:
+            continue
+        init = kids(x)[0]
+        while init is not None and init["k"] != "LambdaExpr" and len(kids(init)) == 1 and \
+                init["k"] in ("ExprWithCleanups", "MaterializeTemporaryExpr", "CXXConstructExpr", "ImplicitCastExpr", "CXXBindTemporaryExpr"):
+            init = kids(init)[0]
+        if init is None or init["k"] != "LambdaExpr":
+            continue
+        lf = fn.tu.by_did.get(init.get("fn"))
+        if lf is None or lf.body is None or "captures" not in init:
+            continue
+        if not all(c.get("name") == "this" or c.get("byref") for c in init["captures"]):
+            continue
+        if any(y["k"] in ("ReturnStmt", "LambdaExpr", "GotoStmt", "LabelStmt", "CXXTryStmt") for y in ir.walk(lf.body)):
+            continue
+        lambdas[x["did"]] = (x, lf)
+    if not lambdas:
+        return False
+    done = [0]
+
+    def paste(lf, args, at):
+        subst, rename, pre = {}, {}, []
+        writes = _written_locals(lf.body)
+        for p_, a in zip(lf.params, args):
+            ty = (p_.get("ty") or "").rstrip()
+            if ty.endswith("&&"):
+                return None
+            if ty.endswith("&"):
+                if not _pure_designator(a) or not strip_casts(a).get("lv"):
+                    return None
+                if any(y["k"] == "DeclRefExpr" and y["ref"]["id"] in writes for y in ir.walk(a)):
+                    return None              # the body changes what the argument is spelled with
+                subst[p_["did"]] = a
+            else:
+                nd = _fresh_id()
+                rename[p_["did"]] = nd
+                v = {"k": "VarDecl", "id": _fresh_id(), "did": nd, "name": p_.get("name"), "ty": p_.get("ty"), "l": at.get("l"), "ch": [_clone(a)]}
+                pre.append({"k": "DeclStmt", "id": _fresh_id(), "l": at.get("l"), "ch": [v]})
+        for y in ir.walk(lf.body):
+            if y["k"] == "VarDecl" and y.get("did") is not None:
+                rename[y["did"]] = _fresh_id()
+
+        def cp(n):
+            if n is None:
+                return None
+            if n["k"] == "DeclRefExpr":
+                d = n["ref"]["id"]
+                if d in subst:
+                    return _clone(subst[d])
+                out = dict(n)
+                out["id"] = _fresh_id()
+                if d in rename:
+                    out["ref"] = dict(n["ref"], id=rename[d], kind="local")
+                return out
+            out = dict(n)
+            out["id"] = _fresh_id()
+            if n["k"] == "VarDecl" and n.get("did") in rename:
+                out["did"] = rename[n["did"]]
+            if "ch" in n:
+                out["ch"] = [cp(c) for c in n["ch"]]
+            for key in ("init", "condvar"):
+                if isinstance(n.get(key), dict):
+                    out[key] = cp(n[key])
+            return out
+        return _block(pre + [cp(c) for c in _as_list(lf.body)], at)
+
+    def rw(s):
+        e0 = _through_temporaries(s)
+        fc = match.functor_call(e0) if e0 is not None and e0["k"] == "CXXOperatorCallExpr" else None
+        if fc and ref_of(fc[0]) in lambdas:
+            lf = lambdas[ref_of(fc[0])][1]
+            args = [a for a in fc[1] if a is not None]
+            if len(args) == len(lf.params) and not any(a["k"] == "DefaultArg" for a in args):
+                blk = paste(lf, args, e0)
+                if blk is not None:
+                    done[0] += 1
+                    return blk
+        return s
+
+    new_body = _map_statements(body, rw)
+    if not done[0]:
+        return False
+    gone = {d for d in lambdas if not any(y["k"] == "DeclRefExpr" and y["ref"]["id"] == d for y in ir.walk(new_body))}
+    if gone:
+        new_body = _map_statements(new_body, lambda s_: s_, gone)
+    fn.body = new_body
+    fn._byid = None
+    return True
+
+
+def lower_exchange(fn):
+    """`x = std::exchange(a, b);` written out as  { T old = a;  a = b;  x = old; }  (what std::exchange does, in its order);
+    `std::exchange(a, b);` alone as  a = b;.  `a` must name its object without side effects."""
+    body = fn.body
+    if body is None or not any("callee" in x and x["callee"].get("qname") == "std::exchange" for x in ir.walk(body)):
+        return False
+    done = [0]
+
+    def exchange_call(e):
+        e = _through_temporaries(match.strip_conv(e))
+        if e is not None and "callee" in e and e["callee"].get("qname") == "std::exchange" and e["k"] == "CallExpr" and \
+                len([a for a in kids(e) if a is not None]) == 2:
+            return kids(e)[0], kids(e)[1]
+        return None
+
+    def assign(l, r, at):
+        n = {"k": "BinaryOperator", "id": _fresh_id(), "l": at.get("l"), "ty": l.get("ty"), "lv": True, "op": "=", "ch": [l, r], "synthetic": True}
+        if at.get("f"):
+            n["f"] = at["f"]
+        return n
+
+    def rw(s):
+        e0 = _through_temporaries(s)
+        if e0 is None:
+            return s
+        x = exchange_call(e0)
+        if x and _pure_designator(x[0]):
+            done[0] += 1
+            return _block([assign(_clone(x[0]), _clone(x[1]), e0)], s)
+        b = match.binop(e0, ("=",)) if e0["k"] in ("BinaryOperator", "CXXOperatorCallExpr") else None
+        x = exchange_call(b[2]) if b else None
+        if x and _pure_designator(x[0]) and _pure_designator(b[1]):
+            nd = _fresh_id()
+            ty = _bare_type(strip_casts(x[0]).get("ty"))
+            v = {"k": "VarDecl", "id": _fresh_id(), "did": nd, "name": "exchanged", "ty": ty, "l": e0.get("l"), "ch": [_clone(x[0])]}
+            old = {"k": "DeclRefExpr", "id": _fresh_id(), "l": e0.get("l"), "lv": True, "ty": ty, "ref": {"id": nd, "kind": "local", "name": "exchanged", "vty": ty}}
+            done[0] += 1
+            return _block([{"k": "DeclStmt", "id": _fresh_id(), "l": e0.get("l"), "ch": [v]}, assign(_clone(x[0]), _clone(x[1]), e0),
+                           assign(_clone(b[1]), old, e0)], s)
+        return s
+
+    new_body = _map_statements(body, rw)
+    if not done[0]:
+        return False
+    fn.body = new_body
+    fn._byid = None
+    return True
+
+
+def expand_reference_packs(fn):
+    """`auto cand = std::tie(sup, source, key);  auto node = std::tie(n.sup, n.source, n.key);  cand.swap(node);
+    std::tie(losers_[0].sup, ...) = cand;` written out member by member: swap(sup, n.sup); swap(source, n.source); ...
+    A tuple made by std::tie holds references only: it IS the list of the objects named, and swap / assignment of two such
+    tuples is the same operation on every pair of members, in order.  The function body is replaced by the expanded one
+    (fn.body; the extracted tree itself is not changed) only if every use of every pack is one of these forms, every
+    member names its object without side effects, and no index used in a member changes between the std::tie and a use;
+    otherwise nothing is touched (the closed-world scan then finds the tuple and no absence is concluded)."""
+    body = fn.body
+    if body is None or not any("callee" in x and x["callee"].get("qname") == "std::tie" for x in ir.walk(body)):
+        return False
+    order = {x["id"]: i for i, x in enumerate(ir.walk(body))}
+    packs = {}           # declaration id -> (VarDecl, members)
+    for x in ir.walk(body):
+        if x["k"] == "VarDecl" and kids(x) and kids(x)[0] is not None:
+            i0 = _through_temporaries(kids(x)[0])
+            if i0 is not None and "callee" in i0 and i0["callee"].get("qname") == "std::tie" and i0["k"] == "CallExpr":
+                packs[x["did"]] = (x, [a for a in kids(i0)])
+
+    def members(e):
+        e = _through_temporaries(e)
+        if e is None:
+            return None
+        if e["k"] == "DeclRefExpr" and e["ref"]["id"] in packs:
+            return packs[e["ref"]["id"]][1], e["ref"]["id"]
+        if "callee" in e and e["callee"].get("qname") == "std::tie" and e["k"] == "CallExpr":
+            return list(kids(e)), None
+        return None
+
+    def values(e):
+        """std::make_tuple(a, b, c) / std::make_pair(a, b): the values, taken before anything is assigned"""
+        e = _through_temporaries(match.strip_conv(e))
+        if e is not None and "callee" in e and e["callee"].get("qname") in ("std::make_tuple", "std::make_pair") and e["k"] == "CallExpr":
+            return [a for a in kids(e) if a is not None]
+        return None
+
+    def independent(targets, vals):
+        """assigning vals[i] to targets[i] one after the other is the same as assigning them all at once: no value reads
+        what an earlier assignment writes"""
+        for m in vals:
+            if not pure(m):
+                return False
+        for i, t in enumerate(targets):
+            for v in vals[i + 1:]:
+                for x in ir.walk(v):
+                    if x.get("lv") and (match.same_expr(x, t) or (ref_of(x) is not None and ref_of(x) == ref_of(t))):
+                        return False
+                    if x["k"] == "DeclRefExpr" and x["ref"].get("kind") not in ("local", "param", "global", None) :
+                        return False
+                    if x["k"] in ("MemberExpr", "UnaryOperator") and x.get("lv") and ref_of(t) is None and not match.this_field(x):
+                        return False          # a field / *p next to a target that is a field: they may be the same object
+        return True
+
+    pure = _pure_designator
+
+    uses = {d: [] for d in packs}      # pack -> text positions of the statements that use it
+    failed = []
+
+    def expand(e):
+        """the statements that the expression statement e stands for, or None if e is not an operation on packs"""
+        e0 = _through_temporaries(e)
+        if e0 is None or "callee" not in e0:
+            return None
+        a = [x for x in kids(e0) if x is not None]
+        name = e0["callee"]["name"]
+        kind = None
+        if name == "swap" and len(a) == 2 and e0["k"] in ("CXXMemberCallExpr", "CallExpr"):
+            kind = "swap"
+        elif e0["k"] == "CXXOperatorCallExpr" and e0.get("op") == "=" and len(a) == 2:
+            kind = "="
+        if kind is None:
+            return None
+        l, r = members(a[0]), members(a[1])
+        if l is not None and r is None and kind == "=" and values(a[1]) is not None and len(values(a[1])) == len(l[0]) and \
+                independent(l[0], values(a[1])):
+            r = (values(a[1]), None)
+        if l is None and r is None:
+            return None
+        if l is None or r is None or len(l[0]) != len(r[0]):
+            failed.append(e0)
+            return None
+        for d in (l[1], r[1]):
+            if d is not None:
+                uses[d].append(order.get(e0["id"], 0))
+        out = []
+        for x, y in zip(l[0], r[0]):
+            if kind == "swap":
+                n = {"k": "CallExpr", "id": _fresh_id(), "l": e0.get("l"), "ty": "void", "callee": {"name": "swap", "qname": "std::swap", "did": None},
+                     "ch": [_clone(x), _clone(y)], "synthetic": True}
+            else:
+                n = {"k": "BinaryOperator", "id": _fresh_id(), "l": e0.get("l"), "ty": x.get("ty"), "lv": True, "op": "=", "ch": [_clone(x), _clone(y)],
+                     "synthetic": True}
+            if e0.get("f"):
+                n["f"] = e0["f"]
+            out.append(n)
+        return out
+
+    def rw(s):
+        ex = expand(s)
+        return _block(ex, s) if ex is not None else s
+
+    new_body = _map_statements(body, rw, set(packs))
+    if failed:
+        return False
+    for x in list(ir.walk(new_body)) + [y for i_ in fn.inits if i_.get("e") for y in ir.walk(i_["e"])]:
+        if (x["k"] == "DeclRefExpr" and x["ref"]["id"] in packs) or ("callee" in x and x["callee"].get("qname") == "std::tie"):
+            return False                 # a use that is not one of the forms above
+    loops = [{y["id"] for y in ir.walk(x)} for x in ir.walk(body) if x["k"] in ("WhileStmt", "ForStmt", "DoStmt")]
+    writes = []          # (variable, text position, node id)
+    for x in ir.walk(body):
+        b = match.binop(x) if x["k"] in ("BinaryOperator", "CompoundAssignOperator", "CXXOperatorCallExpr") else None
+        if b and b[0].endswith("=") and b[0] not in ("==", "!=", "<=", ">=") and ref_of(b[1]) is not None:
+            writes.append((ref_of(b[1]), order[x["id"]], x["id"]))
+        u = match.unop(x, ("++", "--")) if x["k"] in ("UnaryOperator", "CXXOperatorCallExpr") else None
+        if u and ref_of(u[1]) is not None:
+            writes.append((ref_of(u[1]), order[x["id"]], x["id"]))
+    for d, (decl, mem) in packs.items():
+        if not all(pure(m) for m in mem):
+            return False
+        index_vars = set()
+        for m in mem:
+            if ref_of(m) is not None:
+                continue                 # a plain local / parameter: the reference names the variable itself
+            for y in ir.walk(m):
+                if y["k"] == "DeclRefExpr":
+                    index_vars.add(y["ref"]["id"])
+        at = order[decl["id"]]
+        last = max(uses[d]) if uses[d] else at
+        for v, w, wid in writes:
+            if v not in index_vars:
+                continue
+            if at < w < last:
+                return False             # the member would name another node at the use than at the std::tie
+            for lp in loops:
+                if wid in lp and decl["id"] not in lp and any(order_id in lp for order_id in _ids_at(body, uses[d], order)):
+                    return False         # bound before a loop that changes the index and uses the pack
+    fn.body = new_body
+    fn._byid = None
+    return True
+
+
+def _ids_at(body, positions, order):
+    pos = set(positions)
+    return [i for i, o in order.items() if o in pos]
+
+
+def code_value(e, run):
+    """value of an integer code assembled from conditions ((keyp ? 2 : 0) | (node.keyp ? 1 : 0), 2 * a + b, (int)a << 1),
+    the conditions decided by the decision-table run; None if e is something else"""
+    if e is None:
+        return None
+    if (e.get("ty") or "").replace("const ", "") == "bool":
+        return int(run.truth(e))
+    c = const_int(e)
+    if c is not None:
+        return c
+    k = e["k"]
+    if k in _CASTS:
+        return code_value(kids(e)[0], run) if kids(e) else None
+    if k == "ConditionalOperator":
+        c0, a, b = kids(e)
+        return code_value(a if run.truth(c0) else b, run)
+    if k == "BinaryOperator" and e.get("op") in ("|", "&", "^", "+", "-", "*", "<<", ">>"):
+        a, b = code_value(kids(e)[0], run), code_value(kids(e)[1], run)
+        if a is None or b is None or (e["op"] in ("<<", ">>") and not 0 <= b < 32):
+            return None
+        return {"|": a | b, "&": a & b, "^": a ^ b, "+": a + b, "-": a - b, "*": a * b, "<<": a << b, ">>": a >> b}[e["op"]]
+    return None
+
+
+def lower_novel_forms(fn):
+    """spellings that the rules do not read are replaced by the plain statements they stand for, in fn.body (the extracted
+    tree is not changed): calls of local lambdas that stand as statements, std::tie packs, std::exchange, switch.  Each
+    step leaves the function alone unless it can do the whole job safely; on the pristine tree nothing is touched."""
+    inline_local_lambdas(fn)
+    expand_reference_packs(fn)
+    lower_exchange(fn)
+    if fn.body is not None and any(x["k"] == "SwitchStmt" for x in ir.walk(fn.body)):
+        fn.body = dict(fn.body, ch=lower_switches(fn, kids(fn.body)))
+        fn._byid = None
 
 
 def replay_loop(ck, fn):
@@ -394,7 +1254,20 @@ def replay_path_eval(ck, fn, loop, fields):
             loop_ids |= {x["id"] for x in ir.walk(part)}
     post_ids = {x["id"] for s_ in stmts[li + 1:] for x in ir.walk(s_)}
     decl_site = {x["did"]: x["id"] for x in fn.nodes() if x["k"] == "VarDecl"}
-    escape = field_escapes(fn)
+    loop_written = set()     # locals assigned / stepped inside the loop: a pointer among them is not a fixed node
+    for x in fn.nodes():
+        if x.get("id") in loop_ids:
+            b_ = match.binop(x) if x["k"] in ("BinaryOperator", "CompoundAssignOperator", "CXXOperatorCallExpr") else None
+            if b_ and b_[0].endswith("=") and b_[0] not in ("==", "!=", "<=", ">="):
+                loop_written.add(ref_of(b_[1]))
+            u_ = match.unop(x, ("++", "--")) if x["k"] in ("UnaryOperator", "CXXOperatorCallExpr") else None
+            if u_:
+                loop_written.add(ref_of(u_[1]))
+    escape = field_escapes(fn) or unmodelled_tree_use(fn)
+    for x in fn.nodes():
+        if x["k"] == "ImplicitCastExpr" and x.get("cast") == "PointerToBoolean" and _bare_type(_bare_type(x.get("from")).rstrip("*")).endswith("::Loser"):
+            # the evaluation puts the first node at address 0: `while (game)` would look like a test against the root
+            raise dtable.Undecidable("%s: truth value of a pointer into the tree" % fn.nloc(x))
     owner = CLASSES_BASE(fn) + "::Loser"
     chal = None
     for K in (1, 2, 4, 8):
@@ -441,7 +1314,7 @@ def replay_path_eval(ck, fn, loop, fields):
                     if ix is not None:
                         return const_int(ix) is not None
                     d = ref_of(obj)
-                    return d is not None and d in decl_site and decl_site[d] not in loop_ids
+                    return d is not None and d in decl_site and decl_site[d] not in loop_ids and d not in loop_written
 
                 def node_source(slot):
                     """what the evaluation knows of the field `source` of a node"""
@@ -450,6 +1323,12 @@ def replay_path_eval(ck, fn, loop, fields):
                     if st["phase"] == "pre":
                         return (s + 1) % K           # before the replay another slot holds another player: not the winner's source
                     return None
+
+                def set_local_field(sk, key, m, v):
+                    cur = sk.env.get(key)
+                    vals = dict(cur[1]) if isinstance(cur, tuple) and len(cur) == 2 and cur[0] == "loser" else {}
+                    vals[m["member"]] = v
+                    sk.env[key] = player(member_names(m, fields), vals)
 
                 def event(e, sk):
                     k = e["k"]
@@ -464,20 +1343,20 @@ def replay_path_eval(ck, fn, loop, fields):
                             sk.ev(kids(e)[2])
                             return None
                         return sk.ev(kids(e)[1] if c else kids(e)[2])
+                    if k == "UnaryOperator" and e.get("op") == "&" and kids(e) and is_loser_object(kids(e)[0]):
+                        slot, _ix = object_slot(fn, kids(e)[0], False, sk)
+                        return slot if slot is not None else NotImplemented       # &losers_[i] is address i (losers_.data() is address 0)
                     bq = match.binop(e, ("=",)) if k in ("BinaryOperator", "CXXOperatorCallExpr") else None
                     if bq:
                         lhs = strip_casts(bq[1])
-                        if is_loser_member(lhs) and not match.this_field(lhs):
-                            slot, ix = object_slot(fn, kids(lhs)[0], lhs.get("arrow"), sk)
+                        if (is_loser_member(lhs) or is_record_member(lhs)) and not match.this_field(lhs):
+                            slot, ix = (None, None) if is_record_member(lhs) else object_slot(fn, kids(lhs)[0], lhs.get("arrow"), sk)
                             if slot is None:
                                 key = local_key(kids(lhs)[0], lhs.get("arrow"), sk)      # a field of a local player object
                                 if key is None:
                                     return NotImplemented
                                 v = sk.ev(bq[2])
-                                cur = sk.env.get(key)
-                                vals = dict(cur[1]) if isinstance(cur, tuple) and len(cur) == 2 and cur[0] == "loser" else {}
-                                vals[lhs["member"]] = v
-                                sk.env[key] = player(fields, vals)
+                                set_local_field(sk, key, lhs, v)
                                 return v
                             touch(slot, is_fixed(kids(lhs)[0], ix), lhs["member"], e, sk, store=bq[2])
                             return sk.ev(bq[2])
@@ -494,8 +1373,11 @@ def replay_path_eval(ck, fn, loop, fields):
                                     touch(slot, is_fixed(lhs, ix), f_, e, sk, store=parts[f_])
                             sk.ev(bq[2])
                             return None
-                    if is_loser_member(e) and not match.this_field(e):
-                        slot, ix = object_slot(fn, kids(e)[0], e.get("arrow"), sk)
+                    if (is_loser_member(e) or is_record_member(e)) and not match.this_field(e):
+                        b0 = _through_temporaries(kids(e)[0])
+                        if b0 is not None and b0["k"] == "InitListExpr":
+                            return player_field(sk.ev(b0), e["member"])           # Loser{ a, b }.source
+                        slot, ix = (None, None) if is_record_member(e) else object_slot(fn, kids(e)[0], e.get("arrow"), sk)
                         if slot is None:
                             key = local_key(kids(e)[0], e.get("arrow"), sk)
                             return player_field(sk.env.get(key), e["member"]) if key is not None else NotImplemented
@@ -508,7 +1390,16 @@ def replay_path_eval(ck, fn, loop, fields):
                         return player(fields, {"source": node_source(slot)})
                     if k == "InitListExpr" and is_loser_object(e) and len(kids(e)) == len(fields):
                         return player(fields, {f_: sk.ev(x_) for f_, x_ in zip(fields, kids(e))})     # Loser cand = { a, b };
+                    if k == "InitListExpr" and is_record_object(e) and len(kids(e)) == len(_RECORDS[_bare_type(e.get("ty"))]):
+                        names_ = _RECORDS[_bare_type(e.get("ty"))]
+                        return player(names_, {f_: sk.ev(x_) for f_, x_ in zip(names_, kids(e))})     # Travelling t = { a, b, c };
                     if "callee" in e and e["callee"]["name"] == "swap" and not e.get("member_call") and len(kids(e)) == 2:
+                        for a, o in ((kids(e)[0], kids(e)[1]), (kids(e)[1], kids(e)[0])):
+                            am = strip_casts(a)
+                            if is_loser_member(am) and not match.this_field(am):
+                                slot, ix = object_slot(fn, kids(am)[0], am.get("arrow"), sk)
+                                if slot is not None:       # swap(losers_[0].f, f) after the loop leaves f in slot 0
+                                    touch(slot, is_fixed(kids(am)[0], ix), am["member"], am, sk, store=o)
                         for a in kids(e):
                             if is_loser_object(a) and object_slot(fn, a, False, sk)[0] is not None:
                                 st["whole"].add(object_slot(fn, a, False, sk)[0])
@@ -516,6 +1407,12 @@ def replay_path_eval(ck, fn, loop, fields):
                         for a in kids(e):
                             if ref_of(a) is not None:
                                 sk.store(sk.lvalue(strip_casts(a)), None)     # the local now holds data
+                            am = strip_casts(a)
+                            if (is_loser_member(am) or is_record_member(am)) and not match.this_field(am):
+                                key = local_key(kids(am)[0], am.get("arrow"), sk) if (is_record_member(am) or
+                                                                                      object_slot(fn, kids(am)[0], am.get("arrow"), sk)[0] is None) else None
+                                if key is not None:
+                                    set_local_field(sk, key, am, None)        # so does the field of a local player object
                         return None
                     if opaque_tree_call(e, sk) and st["opaque"] is None:
                         st["opaque"] = "%s: call not understood: %s" % (fn.nloc(e), dtable.describe(e)[:80])
@@ -616,6 +1513,77 @@ def replay_path_shape(fn, loop, fields, why):
     return chal
 
 
+def _position_skel(fn, posv, p):
+    """a skeleton in which the position (an index local, or a pointer that walks the tree: the storage starts at address 0)
+    has the value p"""
+    from engine import skel
+    base = _position_base(posv)
+    env = {posv: base + p}
+    for d in _BASE_PTRS:
+        env[d] = base
+
+    def event(e, sk):
+        v = tree_accessor(e, 64)
+        if v is not None:
+            return v if e["callee"]["name"] == "size" else base + v
+        if e["k"] == "UnaryOperator" and e.get("op") == "&" and kids(e):
+            ip = match.index_parts(kids(e)[0])
+            if ip and match.this_field(ip[0]) == TREE:
+                i = sk.ev(ip[1])
+                return base + i if _is_int(i) else None      # &losers_[i]
+        return NotImplemented
+    return skel.Skel(fn, env, None, event)
+
+
+def _position_base(posv):
+    """address of the first node in _position_skel(): not 0 for a walking pointer, so that `game` / `!game` (never null) is
+    not taken for a test against the root"""
+    return 1000 if posv in _WALK_PTRS else 0
+
+
+def steps_to_parent(fn, e, posv):
+    """e moves the position to the parent node: pos /= 2, pos >>= 1, pos = pos / 2, game = base + (game - base) / 2, ...:
+    whatever the spelling, evaluated for a few positions the new position is the old one halved"""
+    if match.halving(e, posv):
+        return True
+    b = match.binop(e) if e["k"] in ("BinaryOperator", "CompoundAssignOperator") else None
+    if not (b and b[0].endswith("=") and b[0] not in ("==", "!=", "<=", ">=") and ref_of(b[1]) == posv):
+        return False
+    for p in (1, 2, 3, 4, 5, 6, 7, 12, 13):
+        sk = _position_skel(fn, posv, p)
+        try:
+            sk.ev(e)
+        except ir.AnalysisBroken:
+            return False
+        v = sk.env.get(posv)
+        if not _is_int(v) or v != _position_base(posv) + p // 2:
+            return False
+    return True
+
+
+def position_polarity(fn, n, posv):
+    """True if n holds exactly when the position is not the root's slot 0 (pos > 0, pos != 0, pos >= 1, game != base,
+    game > base), False if it holds exactly when it is (pos == 0, game == base, !pos); None if n is something else"""
+    if posv not in _WALK_PTRS and match.positive_test(n, posv):
+        return True
+    if not any(x["k"] == "DeclRefExpr" and x["ref"]["id"] == posv for x in ir.walk(n)):
+        return None
+    vals = []
+    for p in (0, 1, 2, 3, 6, 13):
+        try:
+            v = _position_skel(fn, posv, p).ev(n)
+        except ir.AnalysisBroken:
+            return None
+        if not isinstance(v, (bool, int)):
+            return None
+        vals.append(bool(v))
+    if vals == [False, True, True, True, True, True]:
+        return True
+    if vals == [True, False, False, False, False, False]:
+        return False
+    return None
+
+
 def position_variable(fn, lbody):
     """the local that names the current node of the replay: the index of the node accesses in the loop body that is
     declared outside the body (a copy `cur = pos` made inside the body is not it)"""
@@ -641,6 +1609,7 @@ def position_variable(fn, lbody):
 # ----------------------------------------------------------------------------
 
 def check_replay(ck, fn, info, stable):
+    lower_novel_forms(fn)
     bind_reference_locals(fn)
     loop = replay_loop(ck, fn)
     init, cond, inc, lbody = match.loop_parts(loop)
@@ -734,16 +1703,7 @@ def check_replay(ck, fn, info, stable):
         After the step to the parent the outcome is open: atom X (the position is 0, the loop is left without a game:
         do { pos /= 2; if (pos == 0) break; game }) if no node was consulted yet, atom T (the game just played was the
         topmost one) if the game of this iteration is over."""
-        pol = None
-        if match.positive_test(n, posv):
-            pol = True
-        b = match.binop(n) if strip_casts(n)["k"] == "BinaryOperator" else None
-        if b and pol is None:
-            op, l, r = b
-            if ref_of(l) == posv and ((op in ("==", "<=") and const_int(r) == 0) or (op == "<" and const_int(r) == 1)):
-                pol = False
-            if ref_of(r) == posv and ((op in ("==", ">=") and const_int(l) == 0) or (op == ">" and const_int(l) == 1)):
-                pol = False
+        pol = position_polarity(fn, n, posv)
         if pol is None or not track["moved"]:
             return pol
         played = "before" in track["seen"]
@@ -751,7 +1711,7 @@ def check_replay(ck, fn, info, stable):
             if ev[0] == "expr" and moves_pos(ev[1]):
                 break
             for x in ir.walk(ev[1]) if ev[0] in ("expr", "decl") else ():
-                i = node_index(x) if x["k"] not in ("VarDecl", "DeclStmt") else None
+                i = node_index(x) if x["k"] not in ("VarDecl", "DeclStmt") and not (x["k"] == "DeclRefExpr" and ref_of(x) in _WALK_PTRS) else None
                 if i is not None and (ref_of(i) == posv or ref_of(i) in pos_copies):
                     played = True           # an effect (swap(losers_[pos], cand)) on the node before the step
         return ("T" if played else "X", pol)
@@ -805,6 +1765,14 @@ def check_replay(ck, fn, info, stable):
                 if rl == "chal":     # normalise to node OP chal
                     op = {"<": ">", ">": "<", "<=": ">=", ">=": "<="}[op]
                 return {"<": ("C", False), ">": ("D", False), "<=": ("D", True), ">=": ("C", True)}[op]
+        bc = match.binop(n, ("==", "!=")) if n["k"] == "BinaryOperator" else None
+        if bc:
+            for x_, y_ in ((bc[1], bc[2]), (bc[2], bc[1])):
+                if const_int(y_) is not None and const_int(x_) is None and strip_casts(x_) is not None and \
+                        strip_casts(x_)["k"] in ("ConditionalOperator", "BinaryOperator", "ParenExpr"):
+                    cv = code_value(x_, run)          # switch ((keyp ? 2 : 0) | (node.keyp ? 1 : 0)): the case tests
+                    if cv is not None:
+                        return (cv == const_int(y_)) == (bc[0] == "==")
         return pos_test(n, run)
 
     frag = lbody
@@ -891,8 +1859,14 @@ def check_replay(ck, fn, info, stable):
             return False
 
         def whole(e):
-            """field name -> expression, if e designates a whole player (a node, a local Loser object, Loser{...})"""
+            """field name -> expression, if e designates a whole player (a node, a local Loser object, Loser{...}) or a whole
+            object of a local plain struct (Travelling t; Travelling{...})"""
+            if e is not None and is_record_object(match.strip_conv(strip_move(e))):
+                return record_values(e)
             return field_values(e, lfields, owner) if e is not None and (is_loser_object(e) or strip_casts(e)["k"] == "InitListExpr") else None
+
+        def is_whole(e):
+            return is_loser_object(e) or is_record_object(e)
 
         for ev in lf["events"]:
             if ev[0] == "decl":
@@ -900,10 +1874,10 @@ def check_replay(ck, fn, info, stable):
                 if v_.get("isref"):
                     continue                                     # an alias: resolved where it is used
                 init_ = kids(v_)[0] if kids(v_) else None
-                if (v_.get("ty") or "").replace("const ", "").rstrip().endswith("::Loser"):
+                if (v_.get("ty") or "").replace("const ", "").rstrip().endswith("::Loser") or _bare_type(v_.get("ty")) in _RECORDS:
                     parts = whole(init_)                         # Loser tmp = losers_[pos];  a copy of every field
-                    for f_ in fields:
-                        cells[("var", (v_["did"], f_))] = rd(parts[f_]) if parts else None
+                    for f_ in _RECORDS.get(_bare_type(v_.get("ty")), fields):
+                        cells[("var", (v_["did"], f_))] = rd(parts[f_]) if parts and f_ in parts else None
                     continue
                 cells[("var", v_["did"])] = rd(init_) if init_ is not None else None
                 continue
@@ -911,28 +1885,28 @@ def check_replay(ck, fn, info, stable):
                 raise dtable.Undecidable("%s: unexpected %s in replay loop body" % (fn.loc, ev[0]))
             e = ev[1]
             now[0] = text_order.get(e.get("id"), 1 << 30)
-            if match.halving(e, posv):
+            if steps_to_parent(fn, e, posv):
                 track["moved"] = True
                 continue
             asg = match.binop(e, ("=",)) if e["k"] in ("BinaryOperator", "CXXOperatorCallExpr") else None
             if asg:
-                pl, pr = (whole(asg[1]), whole(asg[2])) if is_loser_object(asg[1]) else (None, None)
-                if pl and pr:                                    # node = cand: field by field (the fields are independent cells)
-                    vals_ = {f_: rd(pr[f_]) for f_ in fields}
-                    cs_ = {f_: cell(pl[f_]) for f_ in fields}
-                    if all(cs_[f_] is not None and (vals_[f_] is not None or not relevant(cs_[f_])) for f_ in fields):
-                        for f_ in fields:
+                pl, pr = (whole(asg[1]), whole(asg[2])) if is_whole(asg[1]) else (None, None)
+                if pl and pr and set(pl) == set(pr):             # node = cand: field by field (the fields are independent cells)
+                    vals_ = {f_: rd(pr[f_]) for f_ in pl}
+                    cs_ = {f_: cell(pl[f_]) for f_ in pl}
+                    if all(cs_[f_] is not None and (vals_[f_] is not None or not relevant(cs_[f_])) for f_ in pl):
+                        for f_ in pl:
                             cells[cs_[f_]] = vals_[f_]
                         continue
-                elif not is_loser_object(asg[1]) and assign(asg[1], asg[2]):
+                elif not is_whole(asg[1]) and assign(asg[1], asg[2]):
                     continue
             c = match.call_named(e, ("swap",))
             if c and len(kids(c)) == 2 and not c.get("member_call"):
-                pa, pb = (whole(kids(c)[0]), whole(kids(c)[1])) if is_loser_object(kids(c)[0]) and is_loser_object(kids(c)[1]) else (None, None)
-                if pa and pb:                                    # swap(losers_[pos], cand): every field is exchanged
-                    if all(exchange(pa[f_], pb[f_]) for f_ in fields):
+                pa, pb = (whole(kids(c)[0]), whole(kids(c)[1])) if is_whole(kids(c)[0]) and is_whole(kids(c)[1]) else (None, None)
+                if pa and pb and set(pa) == set(pb):             # swap(losers_[pos], cand): every field is exchanged
+                    if all(exchange(pa[f_], pb[f_]) for f_ in pa):
                         continue
-                elif not is_loser_object(kids(c)[0]) and not is_loser_object(kids(c)[1]) and exchange(kids(c)[0], kids(c)[1]):
+                elif not is_whole(kids(c)[0]) and not is_whole(kids(c)[1]) and exchange(kids(c)[0], kids(c)[1]):
                     continue
             raise dtable.Undecidable("%s: effect not understood in replay loop body: %s" % (fn.nloc(e), dtable.describe(e)))
         # engine/dtable.py keeps assignments to bool locals to itself (no event): `sup = losers_[pos].sup;` shows up as the
@@ -965,6 +1939,13 @@ def check_replay(ck, fn, info, stable):
         if len(lf["run"].node_seen) > 1:
             raise dtable.Undecidable("%s: one step of the replay addresses nodes both before and after the position moves to the parent (%s)"
                                      % (fn.nloc(loop), dtable.fmt_val(v)))
+        if lf["stop"][0] in ("break", "return", "goto", "throw") and not (v.get("T") or v.get("X")):
+            # the row leaves the loop although the position is not known to be the root's: a decision on data, not on the position
+            ck.violation("REPLAY-PATH", fn.qname, "leaves:" + dtable.fmt_val(v),
+                         "the replay loop is left (%s) after this step wherever the position is: the games on the rest of the path to the "
+                         "root are not played (%s)" % (lf["stop"][0], dtable.fmt_val(v)), fn.nloc(loop))
+            viol = True
+            continue
         if v.get("X"):
             # the loop is left before a game is played: nothing may have happened to a node or to the challenger
             if any((n_, c_) != (("node", f), ("chal", f)) for f, (n_, c_) in effect.items()):
@@ -1055,6 +2036,7 @@ def CLASSES_BASE(fn):
 # ----------------------------------------------------------------------------
 
 def check_init(ck, fn, guarded, pointer):
+    lower_novel_forms(fn)
     bind_reference_locals(fn)
     root = fn.params[0]["did"]
     # children: locals initialised by recursive calls with 2*root (+1)
@@ -1200,6 +2182,7 @@ def check_init(ck, fn, guarded, pointer):
         cur_run[0] = lf["run"]
         cur_roles[0] = None
         lf["run"].val = dict(v)          # the row fixes every atom: a ternary that selects the winner is decided by it
+        by_field = {}
         try:
             done = []
             for ev in lf["events"]:
@@ -1212,15 +2195,24 @@ def check_init(ck, fn, guarded, pointer):
                     if b and node_role(b[1]) == "root" and node_role(b[2]) in ("left", "right"):
                         stored = node_role(b[2])
                         continue
+                    fl, fr = (node_field(b[1]), node_field(strip_move(b[2]))) if b else (None, None)
+                    if fl and fr and fl[1] == fr[1] and idx_role(fl[0]) == "root" and idx_role(fr[0]) in ("left", "right"):
+                        by_field[fl[1]] = idx_role(fr[0])      # losers_[root].f = losers_[right].f: the player is stored field by field
+                        continue
                     if b and ev[1]["k"] == "BinaryOperator" and ref_of(b[1]) is not None and ref_of(b[1]) not in _REF_INITS \
-                            and node_index(b[1]) is None:
-                        continue             # an index local changes: roles_of() follows it
+                            and node_index(b[1]) is None and strip_casts(b[1])["ref"].get("kind") in ("local", "param"):
+                        continue             # an index local changes: roles_of() follows it (a structured binding is not one)
                     if index_swap(ev[1]):
                         continue
                     if match.call_named(ev[1], ("init_winner",)):
                         continue
                 raise dtable.Undecidable("%s: effect not understood in init_winner" % fn.loc)
             cur_roles[0] = roles_of(lf["run"], done)
+            if by_field:
+                names_ = [f_["name"] for f_ in loser_fields(fn)]
+                if stored is not None or set(by_field) != set(names_) or len(set(by_field.values())) != 1:
+                    raise dtable.Undecidable("%s: the game node is stored field by field, not as one player (%s)" % (fn.loc, dtable.fmt_val(v)))
+                stored = by_field[names_[0]]
             ck.require(lf["stop"][0] == "return", "%s: init_winner path without return" % fn.loc)
             rv = lf["stop"][1][0]
             winner = idx_role(rv) if rv is not None else None
@@ -1259,6 +2251,7 @@ def check_init(ck, fn, guarded, pointer):
 def check_min_source(ck, fn, pointer_guarded):
     """MIN-SOURCE: every path of min_source is followed (early returns, ternaries, locals, references); the value it returns
     must be losers_[0].source, except - in the guarded pointer tree - when losers_[0].keyp is null, where it must not be"""
+    lower_novel_forms(fn)
     bind_reference_locals(fn)
 
     def atomize(n, run):
@@ -1365,11 +2358,14 @@ def check_padding(ck, fn, guarded, pointer):
     """PADDING: the constructor is evaluated on its skeleton for (ik_, k_) = (3, 4), (5, 8), (4, 4), (1, 1), (6, 8): every padding
     leaf k_ + ik_ .. 2 k_ - 1 receives the 'exhausted' / sentinel value, whatever the form of the loop (index or pointer)"""
     from engine import skel
+    lower_novel_forms(fn)
+    bind_reference_locals(fn)
     fld = "sup" if (guarded and not pointer) else "keyp" if pointer else "key"
     what = "sup = true" if fld == "sup" else "keyp = nullptr" if guarded else "keyp = &sentinel" if pointer else "key = sentinel"
     ck.require(len(fn.params) >= (1 if guarded else 2), "%s: constructor parameters changed" % fn.loc)
     sentinel = None if guarded else fn.params[1]["did"]
-    escape = field_escapes(fn)
+    escape = field_escapes(fn) or unmodelled_tree_use(fn, ("fill", "fill_n"))
+    unseen = [escape]       # an operation on the tree that the evaluation does not model, met in the text or in one of the runs
     names = [f["name"] for f in loser_fields(fn)]
     # the parameter that initialises ik_ stands for it
     ik_params = [ref_of(i["e"]) for i in fn.inits if i.get("field") == "ik_" and i.get("e") is not None and ref_of(i["e"]) is not None]
@@ -1466,6 +2462,7 @@ def check_padding(ck, fn, guarded, pointer):
             pass
         except skel.Diverges:
             raise dtable.Undecidable("%s: constructor loop does not end in the evaluation with ik_ = %d, k_ = %d" % (fn.loc, ik, k))
+        unseen[0] = unseen[0] or st["opaque"]
         padding = list(range(k + ik, 2 * k))
         miss = [p for p in padding if p not in stores]
         if miss:
@@ -1483,6 +2480,8 @@ def check_padding(ck, fn, guarded, pointer):
         wrong = [p for p in padding if stores[p] == "bad"]
         if wrong and bad is None:
             bad = ("value", ik, k, wrong, shown[wrong[0]])
+    if bad and unseen[0]:
+        raise dtable.Undecidable(unseen[0])     # a store the evaluation does not see may follow the ones it saw
     if bad and bad[0] == "range":
         _, ik, k, miss, _ = bad
         ck.violation("PADDING", fn.qname, "range", "constructor loop does not cover all padding leaves [k_+ik_, 2k_): with ik_ = %d, k_ = %d the leaves %s get no %s"
